@@ -1,7 +1,8 @@
 (* Model of plugin/input/k8s/multiline_action.go (MultilineAction.Do, resetLogBuf, isLineEnd,
    escapedCutKeep), byte level on the ESCAPED log fragment (what insane-json's AppendEscapedString
    yields for the `log` node: a quoted JSON string).  The model follows the REPAIRED code
-   (fixes/C15-k8s-*.patch, fixes/C13-k8s-cut-inside-escape.patch): the line-end test is the function
+   (fixes/C15-k8s-*.patch, fixes/C13-k8s-cut-inside-escape.patch; /repo 2e55483: the time-out branch also
+   clears skipNextEvent, the action is completely fresh afterwards): the line-end test is the function
    isLineEnd (length guard + backslash parity); the cut at max_event_size (cut_off_event_by_limit)
    keeps  fragment[:escapedCutKeep(fragment, len(fragment)-offset)]  of the fragment body, i.e. it
    never cuts inside an escape sequence (\x, \uXXXX) and never keeps more than the byte limit.
@@ -88,7 +89,10 @@ Definition escaped_cut_keep (s : bytes) (limit : Z) : res Z :=
 
 Definition k_do (c : kcfg) (st : kstate) (x : kin) : res (kstate * kstep) :=
   match x with
-  | KTimeout => st' <- k_reset st ;; Ok (st', (ADiscard, 0, None, false))
+  | KTimeout =>
+      (* p.resetLogBuf(); p.skipNextEvent = false; return ActionDiscard *)
+      st' <- k_reset st ;;
+      Ok ({| ebuf := ebuf st'; esize := esize st'; skipNext := false; cutOff := cutOff st' |}, (ADiscard, 0, None, false))
   | KChunk frag size =>
       if konly c then Ok (st, (APass, 0, Some frag, false))
       else if Nat.eqb (length frag) 0 then Panic 3          (* Fatalf "wrong event format" *)
@@ -255,7 +259,8 @@ Fixpoint k_spec (c : kcfg) (hist : list (bytes * Z)) (xs : list kin) : list kste
 
 (* ... and with time-outs: the time-out drops what is buffered (the flush clause is refuted, see k8s_timeout_flush_refuted)
    and the action is as good as new - it is no longer busy, the processor may hand it any other stream next, so NOTHING
-   of the line that timed out may survive.  (The code keeps skipNextEvent: Proofs k8s_timeout_fresh_refuted / _partial) *)
+   of the line that timed out may survive.  (Proofs k8s_timeout_fresh: holds for every configuration since /repo 2e55483;
+   the code before it kept skipNextEvent, k8s_timeout_old_keeps_skip_excluded) *)
 Fixpoint k_spec_t (c : kcfg) (hist : list (bytes * Z)) (xs : list kin) : list kstep :=
   match xs with
   | [] => []
